@@ -344,7 +344,33 @@ def run_history(ctx, idx, rng, tmp):
                             if a != b:
                                 probes.append((f"fl{i}_max_ctc", "calculation",
                                                f"crosstalk fl{a}{b}"))
+                for k_ in EMOD_KEYS:
+                    probes.append(("emodulus", "calculation", k_))
+                for sk in (("imaging", "pixel size"), ("setup", "flow rate"),
+                           ("setup", "channel width"), ("setup", "chip region")):
+                    probes.append(("emodulus",) + sk)
                 feat, sec, key = probes[int(rng.integers(0, len(probes)))]
+                if feat == "emodulus" and rng.random() < 0.75:
+                    # establish one of the documented scenarios first
+                    scen = str(rng.choice(["C", "A", "B"]))
+                    want = {"emodulus lut": "LE-2D-FEM-19"}
+                    if scen == "B":
+                        want.update({"emodulus viscosity": 5.5, "emodulus medium": "other"})
+                    else:
+                        want.update({"emodulus medium": "CellCarrier",
+                                     "emodulus viscosity model": "herold-2017"})
+                        if scen == "C":
+                            want["emodulus temperature"] = 23.0
+                    for k_ in EMOD_KEYS:
+                        if k_ in want:
+                            ds.config["calculation"][k_] = want[k_]
+                            cfg["calculation"][k_] = want[k_]
+                            deleted.discard(("calculation", k_))
+                        elif k_ in ds.config["calculation"]:
+                            del ds.config["calculation"][k_]
+                            cfg["calculation"].pop(k_, None)
+                            deleted.add(("calculation", k_))
+                    hist.append(["scenario", scen])
                 if "crosstalk" in key and rng.random() < 0.8:
                     # make the corrected feature computable first: all elements among the
                     # channels that are present
